@@ -2,6 +2,7 @@ package srv
 
 import (
 	"bufio"
+	"crypto/tls"
 	"fmt"
 	"io"
 	"net"
@@ -43,7 +44,28 @@ func StartHttpSub(addr, pathAndQuery, kind string, timeout time.Duration) (*Http
 	if err != nil {
 		return nil, err
 	}
-	h := &HttpSub{Kind: kind, Conn: c}
+	return startHttpSubOn(c, c, addr, pathAndQuery, kind, timeout)
+}
+
+// StartHttpsSub is StartHttpSub over TLS (lal's https listener has a self-signed certificate here).
+// Conn stays the TCP connection: its local address is what lal reports in notifications.
+func StartHttpsSub(addr, pathAndQuery, kind string, timeout time.Duration) (*HttpSub, error) {
+	c, err := net.DialTimeout("tcp", addr, timeout)
+	if err != nil {
+		return nil, err
+	}
+	tc := tls.Client(c, &tls.Config{InsecureSkipVerify: true})
+	c.SetDeadline(time.Now().Add(timeout))
+	if err := tc.Handshake(); err != nil {
+		c.Close()
+		return nil, fmt.Errorf("tls handshake: %w", err)
+	}
+	return startHttpSubOn(c, tc, addr, pathAndQuery, kind, timeout)
+}
+
+func startHttpSubOn(raw net.Conn, c net.Conn, addr, pathAndQuery, kind string, timeout time.Duration) (*HttpSub, error) {
+	var err error
+	h := &HttpSub{Kind: kind, Conn: raw}
 	req := "GET " + pathAndQuery + " HTTP/1.1\r\nHost: " + addr + "\r\nUser-Agent: lalverif\r\nAccept: */*\r\n"
 	if kind == "wsflv" {
 		req += "Upgrade: websocket\r\nConnection: Upgrade\r\nSec-WebSocket-Key: dGhlIHNhbXBsZSBub25jZQ==\r\nSec-WebSocket-Version: 13\r\n"
